@@ -95,6 +95,14 @@ def gen(ctx):
                           f"$[?value(@.*) {op} @.zz]", f"$[?length(@.l) {op} @.r]", f"$[?value(@.l[0]) {op} value(@.r[0])]"):
                     cases.append({"kind": "cmp-fn", "text": t, "doc": [doc]})
     ctx.exhaustive_spaces.append("comparison table: 46 x 46 values x 6 operators, query operands, literal operands and function-result operands")
+    # every pattern of the dialect pool x match / search x a set of subjects (dots inside and outside classes, escapes)
+    subjects = ["", "a", "ab", "abc", "a.c", "a.b", ".", "..", "x.y", "xzy", "1.5", "10", ",", "a,b", "b", "ba", "aab", "cxx", "y", "xy"]
+    for pat in qgen.REGEXES:
+        plit = "'" + pat.replace("\\", "\\\\").replace("'", "\\'") + "'"
+        for fn in ("match", "search"):
+            cases.append({"kind": "regex", "text": f"$[?{fn}(@, {plit})]", "doc": subjects})
+            cases.append({"kind": "regex", "text": f"$[?!{fn}(@.s, {plit}) || {fn}(@.t, {plit})]", "doc": [{"s": a, "t": b} for a, b in zip(subjects, reversed(subjects))]})
+    ctx.exhaustive_spaces.append(f"{len(qgen.REGEXES)} patterns of the common dialect x match/search x {len(subjects)} subjects")
     # (2) generated expressions
     docs = filter_docs(ctx, 25 if ctx.tier == "quick" else 300)
     nq = 1500 if ctx.tier == "quick" else 25000
@@ -128,7 +136,7 @@ def evaluate(ctx, cases):
         if "err" in o:
             ctx.case(c["text"], False)
             ctx.count("compile-error:" + o["err"])
-            if c["kind"] in ("cmp", "cmp-lit", "cmp-fn", "expr"):
+            if c["kind"] in ("cmp", "cmp-lit", "cmp-fn", "expr", "regex"):
                 ctx.violation("a well-typed RFC 9535 filter query must compile", {"text": c["text"], "ast": c.get("ast")}, o, "compiles")
             continue
         try:
